@@ -18,6 +18,7 @@ EXPLANATION = (
     "before the first instruction, and the option is passed unchanged from the command line to the emitter."
     ' (ATOMIC output-truncated) FILE is opened with truncation (File::create, or an OpenOptions chain with truncate(true)).'
     ' (EXIT io errors) no io::Result on the output path is unwrapped; (ATOMIC one-step write, NO-STD prelude / qualified lookup) three known findings.'
+    ' (WRITE-CHECKED no-fsync) success depends only on create / write / flush, which every writable path supports.'
 )
 UNDECIDED = "--no-std equivalence (variable numbering changes) and run mode (needs the lua interpreter)."
 
